@@ -27,7 +27,8 @@ DRIVER = "Driver/C26.lean"
 OBLIGATIONS = ["NiftyVerif.C26." + t for t in (
     "consecutive_length_spec", "save_postcondition", "load_of_fresh", "save_load_roundtrip", "stale_never_leaks",
     "save_overwrite_succeeds", "load_partition_independent", "welford_mean", "welford_var", "n1_variance_zero",
-    "sample_stat_spec", "welford_merge")]
+    "sample_stat_spec", "welford_merge", "refused_save_changes_nothing", "refused_on_nonempty_fresh",
+    "refused_save_then_load", "nonoverwrite_write_preserves_existing")]
 RULE = ("history = sequence of save(list length 0..6, task partition, overwrite?, residual?) / load(task count) ops on 1-3 "
         "bases in one directory, task counts 0(comm=None),1..4 on either side; non-trivial = a shorter list saved over a "
         "longer one, or different task counts on the two sides, or a refused save; distinct by history. "
@@ -135,7 +136,7 @@ def _job(comm, histories, root):
 def _run_histories(histories, seed=None):
     root = tempfile.mkdtemp(prefix="c26_")
     try:
-        res = fm.run(NRANKS, _job, histories, root, seed=seed, timeout=900.0)
+        res = fm.run(NRANKS, _job, histories, root, seed=seed, timeout=150.0 * fm.load_factor())
     finally:
         shutil.rmtree(root, ignore_errors=True)
     return res
@@ -184,14 +185,17 @@ def _to_model(h):
 
 def _property_check(h, real):
     """the property itself on the real results: loads after a successful save return that save's samples"""
-    last = {}  # base -> ("ok", xs, mean) | ("unknown",)
+    last = {}  # base -> ("ok", xs, mean)
+    refused = {}
     for op, o in zip(h["ops"], real):
         b = op["b"]
         if op["k"] == "save":
             if o.get("res") == "ok":
                 last[b] = ("ok", op["xs"], op.get("mean"))
+                refused[b] = False
             else:
-                last[b] = ("unknown",)
+                refused[b] = True
+            # a refused save must leave the directory as it was: `last` stays what it is
             continue
         st = last.get(b)
         if not st or st[0] != "ok" or len(st[1]) == 0:
@@ -209,7 +213,7 @@ def _property_check(h, real):
                     {"site": "load", "what": "wrong-mean"})
         if got != st[1]:
             return (f"load of base {BASES[b]!r} with {op['q']} tasks returns samples {got}, last successful save wrote {st[1]}",
-                    {"site": "load", "what": "wrong-samples"})
+                    {"site": "load", "what": "wrong-samples", "after": "refused-save" if refused.get(b) else "save"})
     return None
 
 
@@ -285,6 +289,15 @@ def _targeted(tagger):
             dict(k="load", b=0, q=q, residual=False),
             dict(k="save", b=0, xs=[t() for _ in range(n2 + 1)], p=p1, counts=[n2 + 1] + [0] * (max(p1, 1) - 1), ow=False),
             dict(k="load", b=0, q=1, residual=False)]))
+    # a refused save (no overwrite, several tasks) after a shorter list was saved over a longer one: must change nothing
+    for (n0, n1, n2, p2) in [(6, 2, 4, 2), (5, 1, 5, 3), (4, 2, 6, 4)]:
+        c2 = [n2 // p2 + (1 if i < n2 % p2 else 0) for i in range(p2)]
+        hs.append(dict(kind="history", multi=False, ops=[
+            dict(k="save", b=0, xs=[t() for _ in range(n0)], p=0, counts=[n0], ow=True),
+            dict(k="save", b=0, xs=[t() for _ in range(n1)], p=0, counts=[n1], ow=True),
+            dict(k="save", b=0, xs=[t() for _ in range(n2)], p=p2, counts=c2, ow=False),
+            dict(k="load", b=0, q=0, residual=False),
+            dict(k="load", b=0, q=3, residual=False)]))
     return hs
 
 
@@ -346,6 +359,27 @@ def _stat_real(case):
                 if len(xs) > 1:
                     out["h5m_std"] = [np.array(f["stats/standard deviation"][k]).tolist() for k in ("u", "w")]
                 out["h5m_samples"] = [[np.array(f["samples"][str(i)][k]).tolist() for k in ("u", "w")] for i in range(len(xs))]
+            # mean only (the `elif mean:` branch uses `average`, not the StatCalculator)
+            fn3 = os.path.join(d, "mean_only.h5")
+            sl.save_to_hdf5(fn3, samples=False, mean=True, std=False)
+            with h5py.File(fn3, "r") as f:
+                out["h5_mean_only"] = np.array(f["stats/mean"]).tolist()
+                out["h5_mean_only_groups"] = sorted(f.keys())
+            # the export used by optimize_kl (`_export_operators`): samples+mean+std for n > 1, samples only otherwise
+            import nifty.cl.minimization.optimize_kl as okl
+            saved = (getattr(okl, "_output_directory", None), getattr(okl, "_save_strategy", None))
+            try:
+                okl._output_directory, okl._save_strategy = d, "latest"
+                os.makedirs(os.path.join(d, "sig"), exist_ok=True)
+                okl._export_operators(0, {"sig": ift.ScalingOperator(dom, 2.)}, sl, None)
+                with h5py.File(os.path.join(d, "sig", "latest.hdf5"), "r") as f:
+                    out["exp_groups"] = sorted(f.keys())
+                    out["exp_samples"] = [np.array(f["samples"][str(i)]).tolist() for i in range(len(xs))]
+                    if "stats" in f:
+                        out["exp_mean"] = np.array(f["stats/mean"]).tolist()
+                        out["exp_std"] = np.array(f["stats/standard deviation"]).tolist()
+            finally:
+                okl._output_directory, okl._save_strategy = saved
         except Exception as e:  # noqa: BLE001
             out["h5_error"] = type(e).__name__ + ":" + str(e)[:80]
         finally:
@@ -435,9 +469,10 @@ def _dist_judge(c, per):
 def _run_dist(cases):
     root = tempfile.mkdtemp(prefix="c26d_")
     try:
-        return fm.run(NRANKS, _dist_job, cases, root, seed=None, timeout=600.0)
+        res = fm.run(NRANKS, _dist_job, cases, root, seed=None, timeout=100.0 * fm.load_factor())
     finally:
         shutil.rmtree(root, ignore_errors=True)
+    return res
 
 
 def _stat_oracle(case):
@@ -487,6 +522,19 @@ def _stat_oracle(case):
                         dict(sig, what="h5-multi-std"))
         if o["h5m_samples"] != [[[x, 2 * x + 1], [3 * x, 3 * (2 * x + 1)]] for x in xs]:
             return ("HDF5 multi-field samples differ from the sample list", dict(sig, what="h5-multi-samples"))
+        if not (_close(o["h5_mean_only"][0], m, sc) and _close(o["h5_mean_only"][1], m2, 2 * sc)) or o["h5_mean_only_groups"] != ["stats"]:
+            return (f"HDF5 export with mean only: {o['h5_mean_only']} (groups {o['h5_mean_only_groups']}) != arithmetic mean {float(m)}",
+                    dict(sig, what="h5-mean-only"))
+        import math
+        if o["exp_samples"] != [[2 * x, 2 * (2 * x + 1)] for x in xs]:
+            return ("operator export of optimize_kl: samples are not op(sample)", dict(sig, what="export-samples"))
+        if len(xs) > 1:
+            if "exp_mean" not in o or not (_close(o["exp_mean"][0], 2 * m, 2 * sc) and _close(o["exp_std"][0], 2 * math.sqrt(v), 2 * sc)
+                                           and _close(o["exp_std"][1], 4 * math.sqrt(v), 4 * sc)):
+                return (f"operator export of optimize_kl: mean/std {o.get('exp_mean')}/{o.get('exp_std')} are not the exact statistics of op(samples)",
+                        dict(sig, what="export-stats"))
+        elif o["exp_groups"] != ["samples"]:
+            return (f"operator export of a single sample writes groups {o['exp_groups']}", dict(sig, what="export-groups"))
     return None
 
 
